@@ -1541,9 +1541,11 @@ class SpaceManager(SharedSpaceOperations):
             elif other not in self.model.global_refs.values():
                 raise ValueError("Cannot create reference '%s'" % name)
 
-        # A cells or a child space of the name in any sub space,
-        # not just in the first one that has the name
-        for subspace in self._get_subs(space):
+        # A cells or a child space of the name in the space itself or in
+        # any sub space, not just in the first one that has the name:
+        # with a model-level reference of the name, the space itself
+        # resolves the name to that reference although it has a child space
+        for subspace in self._get_subs(space, skip_self=False):
             if name in subspace.cells or name in subspace.named_spaces:
                 raise ValueError("Cannot create reference '%s'" % name)
 
